@@ -1,5 +1,6 @@
 """C09 — numeric results independent of enumeration order, root order and storage layout."""
 import itertools
+import json
 import random
 import scenario as S
 import scancheck as SC
@@ -99,6 +100,36 @@ def run(ctx):
                             "order: one sub-tree of %d one-byte files named %d times (%s)" % (n, k, style))
         SP.wide_cases(eng, res, S.HIST_KEYS, "order", quick, rng)
         SP.scale_cases(eng, res, S.HIST_KEYS, "order", quick, rng)
+        if not quick:
+            # a sub-tree that is ALSO a root (a reference straight at it: listed before every commit's tree) and whose only parent
+            # tree arrives more than 2^17 distinct root trees later: judged by closed form (the list-based model is quadratic)
+            n = 140000
+            hs = S.Scenario()
+            hb = hs.add({"kind": "blob", "data": b"x"})
+            sub = hs.add({"kind": "tree", "entries": [(0o100644, b"deep", hb)]})
+            prev = None
+            first_tree = None
+            for i in range(n):
+                ents = [(0o100644, b"n%06d" % i, hb)] + ([(0o40000, b"dir", sub)] if i == 0 else [])
+                t = hs.add({"kind": "tree", "entries": sorted(ents, key=lambda e: e[1] + (b"/" if e[0] == 0o40000 else b""))})
+                prev = hs.add({"kind": "commit", "tree": t, "parents": [prev] if prev is not None else [], "date": 1000000000 + i, "msg": b"c\n"})
+            hs.refs += [(b"refs/heads/main", prev), (b"refs/tags/old-dir", sub)]
+            hs.compute()
+            exp = {"unique_commit_count": n, "unique_tree_count": n + 1, "unique_blob_count": 1, "max_history_depth": n, "max_expanded_tree_count": 2,
+                   "max_path_depth": 2, "unique_tree_entries": n + 2}
+            for roots_, label in (([prev, sub], "the tree is also a root"), ([prev], "reached through the history only")):
+                order = hs.enum_gitlike(roots_) if roots_ == [prev] else [sub, hb] + [x for x in hs.enum_gitlike([prev]) if x not in (sub, hb)]
+                args_ = [] if len(roots_) == 2 else ["--branches"]
+                rc, out, err, log = eng.run_fake(hs, order, args_, [], timeout=1200)
+                res.case(("far-apart-subtree", label), True)
+                inp = {"scenario": "%d commits; a directory present in the oldest commit only; %s" % (n, label), "args": args_}
+                if rc != 0:
+                    res.violations.append(vlib.Violation("run failed (rc=%s): %s" % (rc, str(err)[-300:]), inp, expected="exit 0"))
+                    continue
+                jj = json.loads(out)
+                for f, v in exp.items():
+                    if jj[f] != v:
+                        res.violations.append(vlib.Violation("%s differs from the value known by construction" % f, inp, expected={f: v}, observed={f: jj[f]}))
     finally:
         eng.close()
     res.coverage_extra["exhaustive_permutation_runs"] = nperm
